@@ -271,7 +271,7 @@ def ex_mprocess(p, seed):
     return out
 
 
-def kraus_action_check(out, site, cfg, ks_lib, ks_ref, d, det):
+def kraus_action_check(out, site, cfg, ks_lib, ks_ref, d, det, tol=1e-9):
     """(iv) the returned Kraus set reproduces the channel's action on every matrix unit"""
     try:
         ks = [np.asarray(K, dtype=np.complex128) for K in ks_lib]
@@ -286,6 +286,6 @@ def kraus_action_check(out, site, cfg, ks_lib, ks_ref, d, det):
         worst = max(worst, float(np.abs(R.kraus_apply(ks, E) - R.kraus_apply(ks_ref, E)).max()))
         out.traces += 1
     out.count("cmp_kraus_action")
-    if not (worst <= 1e-9):
+    if not (worst <= tol):
         out.fail("%s:action:%s" % (site, cfg), det + " | %d Kraus operators reproduce the map only up to %.3e on the matrix units" % (len(ks), worst))
     return ks
